@@ -3,7 +3,7 @@ PROPS["C07"] = dict(
     technique="packet-driven reference connection table predicting the callback trace, compared after every packet under ASan/UBSan",
     level_text="tbd",
     level_note="tbd",
-    phases=[dict(name="main", harness="c07.cpp", flavor="asan", mode="random", cases=dict(quick=4000, thorough=200000))],
+    phases=[dict(name="main", harness="c07.cpp", flavor="asan", mode="random", cases=dict(quick=4000, thorough=150000))],
     rule="tbd",
     floors=dict(any={"distinct": 100}),
     assumptions=[],
